@@ -108,7 +108,7 @@ def _cat(parts):
             tags={2: 'escape typed', 3: 'child exited', 4: 'escape typed twice in one read', 5: 'nothing more to copy'},
             timeout=900, split=('nk', 'no', 'r0'), twin_timeout=40,
             thorough=dict(params=dict(k1=Bytes(3), k2=Bytes(3), o1=Bytes(3, min=1), o2=Bytes(3, min=1), r3=Int(1, 3),
-                                      pend=Bytes(2)), timeout=3000, split=('nk', 'no', 'r0', 'r1')),
+                                      pend=Bytes(2)), timeout=3000, split=('nk', 'no', 'r0', 'r1'), twin_timeout=120),
             note='bytes mode: symbolic keystrokes and child output, readiness script of four turns')
 def I1_copy(k1, k2, o1, o2, nk, no, r0, r1, r2, r3, exits, partial, pend, poll, filt, drop=0):
     nk, no = pick(nk, 0, 2), pick(no, 0, 2)
